@@ -1159,6 +1159,7 @@ var declaredGuards = []declaredGuard{
 	{"datatype/labelmap", "Data", "MaxLabel", "mlMu", "declared next to the counters"},
 	{"datatype/labelarray", "Data", "MaxLabel", "mlMu", "declared next to the counters"},
 	{"datatype/neuronjson", "Data", "metadata", "metadataMu", "declared next to the map"},
+	{"datatype/labelmap", "instanceMaps", "maps", "RWMutex", "embedded in the same struct; the only writer (initMapping) holds it"},
 }
 
 func init() {
@@ -3325,4 +3326,95 @@ func rulePathElementGuarded(r *Run) {
 		}
 	}
 	r.check(n >= 50, "datatype:path-element-reads", fmt.Sprintf("%d", n), "too few: rule needs review", "-")
+}
+
+// ---------------------------------------------------------------------------------------------
+// R5.20 / R6.18 / R20.54 — the key constructor refuses what the key decoder refuses
+
+func init() {
+	reg := func(id, prop string) {
+		register(ruleDef{ID: id, Prop: prop, Tier: "quick", Floor: 1,
+			Title: "the key constructor refuses what the key decoder refuses: keyvalue's DecodeTKey answers an error for a stored key of no bytes, so NewTKey leaves with an error for the empty string (a test of the key against \"\" or of its length against 0) — an empty key once stored makes every listing of the instance fail until it is deleted",
+			Fn:    ruleEmptyKeyRefused})
+	}
+	reg("R5.20", "C05")
+	reg("R6.18", "C06")
+	reg("R20.54", "C20")
+}
+
+func ruleEmptyKeyRefused(r *Run) {
+	w := r.W
+	dec := w.fn("datatype/keyvalue", "DecodeTKey")
+	enc := w.fn("datatype/keyvalue", "NewTKey")
+	if dec == nil || enc == nil || len(enc.Params) != 1 {
+		r.undecided("keyvalue.NewTKey/DecodeTKey", "anchors not found")
+		return
+	}
+	// the decoder refuses an empty key: a comparison of a length (minus one) with 0 leading to an error exit
+	decRefuses := false
+	for _, b := range dec.Blocks {
+		ifi, ok := b.Instrs[len(b.Instrs)-1].(*ssa.If)
+		if !ok {
+			continue
+		}
+		bo, ok := ifi.Cond.(*ssa.BinOp)
+		if !ok {
+			continue
+		}
+		if z, isC := constInt(bo.Y); isC && z == 0 && (bo.Op == token.LEQ || bo.Op == token.EQL || bo.Op == token.LSS) {
+			for _, x := range b.Succs[0].Instrs {
+				if ret, isRet := x.(*ssa.Return); isRet && isErrorExit(ret) {
+					decRefuses = true
+				}
+			}
+		}
+	}
+	if !decRefuses {
+		r.check(true, "keyvalue.DecodeTKey:accepts-empty", "the decoder accepts an empty key: nothing to agree on", "", w.fpos(dec))
+		return
+	}
+	key := enc.Params[0]
+	encRefuses := false
+	for _, b := range enc.Blocks {
+		ifi, ok := b.Instrs[len(b.Instrs)-1].(*ssa.If)
+		if !ok {
+			continue
+		}
+		bo, ok := ifi.Cond.(*ssa.BinOp)
+		if !ok {
+			continue
+		}
+		emptyOn := -1 // successor taken for the empty key
+		if bo.X == ssa.Value(key) {
+			if c, isC := bo.Y.(*ssa.Const); isC && c.Value != nil && c.Value.Kind() == constant.String && constant.StringVal(c.Value) == "" {
+				if bo.Op == token.EQL {
+					emptyOn = 0
+				} else if bo.Op == token.NEQ {
+					emptyOn = 1
+				}
+			}
+		}
+		if x := lenOf(bo.X); x != nil && x == ssa.Value(key) {
+			if z, isC := constInt(bo.Y); isC {
+				switch {
+				case z == 0 && (bo.Op == token.EQL || bo.Op == token.LEQ):
+					emptyOn = 0
+				case z == 1 && bo.Op == token.LSS:
+					emptyOn = 0
+				case z == 0 && (bo.Op == token.NEQ || bo.Op == token.GTR):
+					emptyOn = 1
+				}
+			}
+		}
+		if emptyOn < 0 {
+			continue
+		}
+		for _, x := range b.Succs[emptyOn].Instrs {
+			if ret, isRet := x.(*ssa.Return); isRet && isErrorExit(ret) {
+				encRefuses = true
+			}
+		}
+	}
+	r.check(encRefuses, "keyvalue.NewTKey:refuses-the-empty-key", "the constructor leaves with an error for the empty key, as the decoder does",
+		"the constructor accepts the empty key and the decoder refuses it: POST key// (or a batch entry with key \"\") is acknowledged, and from then on every listing that decodes the stored keys (GET keys, keyrange) answers 400 \"empty key\" until that key is deleted", w.fpos(enc))
 }
